@@ -571,3 +571,36 @@ func unspill(v ssa.Value) ssa.Value {
 	}
 	return v
 }
+
+// returnValues resolves the values a Return yields. Functions with a defer
+// and named results spill results to cells: `return a, b` becomes stores to
+// the result cells, RunDefers, loads, Return. The stored values are returned
+// when the stores are in the Return's own block; fromCell reports results that
+// could not be resolved that way (e.g. the recover block).
+func returnValues(ret *ssa.Return) (vals []ssa.Value, fromCell []bool) {
+	vals = make([]ssa.Value, len(ret.Results))
+	fromCell = make([]bool, len(ret.Results))
+	blk := ret.Block()
+	for i, r := range ret.Results {
+		vals[i] = r
+		u, ok := r.(*ssa.UnOp)
+		if !ok || u.Op != token.MUL {
+			continue
+		}
+		al, ok := u.X.(*ssa.Alloc)
+		if !ok {
+			continue
+		}
+		fromCell[i] = true
+		for _, ins := range blk.Instrs {
+			if ins == ssa.Instruction(u) {
+				break
+			}
+			if s, ok := ins.(*ssa.Store); ok && s.Addr == al {
+				vals[i] = s.Val
+				fromCell[i] = false
+			}
+		}
+	}
+	return
+}
